@@ -3,6 +3,7 @@
      ops:  N            NextOffset()
            H<h>         AdvanceHeadOffset(h)
            W<o>:<id>    WaitForCommitOffsetAsync(o, callback id)
+           V<o>:<id>    the same call with an already cancelled context (the tracker ignores the context)
            C<a>         NewCursorAcker(a)
            A<c>:<o>     ack of offset o through the cursor with index c
            X            Close()
@@ -14,7 +15,7 @@ let parse_op s : M.op =
   match s.[0] with
   | 'N' -> M.OpNext
   | 'H' -> M.OpAdvance (mz_of_string rest)
-  | 'W' -> (match String.split_on_char ':' rest with
+  | 'W' | 'V' -> (match String.split_on_char ':' rest with
             | [o; id] -> M.OpWait (mz_of_string o, n_of_string id) | _ -> failwith ("bad op " ^ s))
   | 'C' -> M.OpNewCursor (mz_of_string rest)
   | 'A' -> (match String.split_on_char ':' rest with
